@@ -222,16 +222,16 @@ Proof.
   unfold is_digit, is_ws. intros H.
   apply andb_true_iff in H. destruct H as [H1 H2].
   apply N.leb_le in H1. apply N.leb_le in H2.
-  apply orb_false_iff. split; apply andb_false_iff.
-  - right. apply N.leb_gt. lia.
-  - right. apply N.leb_gt. lia.
+  apply orb_false_iff. split.
+  - apply andb_false_iff. right. apply N.leb_gt. lia.
+  - apply N.eqb_neq. lia.
 Qed.
 
-Lemma parse_int_uint (neg : bool) u : u <> Nil ->
-  parse_int ((if neg then ["-"%char] else []) ++ list_ascii_of_string (NilEmpty.string_of_uint u))
+Lemma parse_int_ascii_uint (neg : bool) u : u <> Nil ->
+  parse_int_ascii ((if neg then ["-"%char] else []) ++ list_ascii_of_string (NilEmpty.string_of_uint u))
   = Some (if neg then Z.opp (Z.of_uint u) else Z.of_uint u).
 Proof.
-  intros Hu. unfold parse_int.
+  intros Hu. unfold parse_int_ascii.
   set (ds := list_ascii_of_string (NilEmpty.string_of_uint u)).
   assert (Hd : Forall (fun a => is_digit a = true) ds) by apply uint_digits.
   assert (Hn : ds <> []) by now apply uint_nonnil.
@@ -268,10 +268,9 @@ Proof.
     cbn in Hz. now rewrite Hz.
 Qed.
 
-(* int(str(z)) = z *)
-Lemma parse_int_show_Z z : parse_int (show_Z z) = Some z.
+Lemma parse_int_ascii_show_Z z : parse_int_ascii (show_Z z) = Some z.
 Proof.
-  destruct (show_Z_shape z) as [neg [u [Hu [Hs Hz]]]]. rewrite Hs, parse_int_uint by exact Hu.
+  destruct (show_Z_shape z) as [neg [u [Hu [Hs Hz]]]]. rewrite Hs, parse_int_ascii_uint by exact Hu.
   now rewrite <- Hz.
 Qed.
 
@@ -282,6 +281,33 @@ Proof.
   - destruct neg; [|contradiction]. destruct H as [H|[]]. now left.
   - right. pose proof (uint_digits u) as Hd. rewrite Forall_forall in Hd. now apply Hd.
 Qed.
+
+(* on a text of 7-bit characters below DEL the Unicode transformation of int() is the identity *)
+Lemma utf8_cps_ascii l : Forall (fun b => (b < 127)%N) l -> utf8_cps l = l.
+Proof.
+  induction 1 as [|b l Hb _ IH]; [reflexivity|]. cbn [utf8_cps].
+  destruct (N.ltb_spec b 128) as [_|H]; [now rewrite IH|lia].
+Qed.
+
+Lemma py_decimal_ascii_id s : Forall (fun a => (N_of_ascii a < 127)%N) s -> py_decimal_ascii s = s.
+Proof.
+  intros H. unfold py_decimal_ascii. rewrite utf8_cps_ascii.
+  - induction H as [|a s Ha _ IH]; [reflexivity|]. cbn [map]. rewrite IH. f_equal.
+    unfold ascii_of_cp. destruct (N.ltb_spec (N_of_ascii a) 127) as [_|H']; [apply ascii_N_embedding|lia].
+  - induction H as [|a s Ha _ IH]; constructor; assumption.
+Qed.
+
+Lemma digit_below_del a : is_digit a = true -> (N_of_ascii a < 127)%N.
+Proof. unfold is_digit. intros H. apply andb_true_iff in H. destruct H as [_ H]. apply N.leb_le in H. lia. Qed.
+
+Lemma show_Z_ascii z : Forall (fun a => (N_of_ascii a < 127)%N) (show_Z z).
+Proof.
+  apply Forall_forall. intros a Ha. apply show_Z_chars in Ha. destruct Ha as [->|Ha]; [cbn; lia|now apply digit_below_del].
+Qed.
+
+(* int(str(z)) = z *)
+Lemma parse_int_show_Z z : parse_int (show_Z z) = Some z.
+Proof. unfold parse_int. rewrite py_decimal_ascii_id by apply show_Z_ascii. apply parse_int_ascii_show_Z. Qed.
 
 Lemma show_Z_nonnil z : show_Z z <> [].
 Proof.
